@@ -483,7 +483,12 @@ func evalC14URL(f []string) Result {
 	direct := "ok"
 	validUTF8 := utf8.ValidString(s)
 	// the contracts the theorems assume, checked on the standard library alone
-	if back, ok := stdParseStrC14(s); s != "" && (!ok || back != s) {
+	// (the contract is about net/url alone: it is only consulted when urlutil.Parse returned what
+	// url.Parse returns for this text; a URL that urlutil.Parse itself changed into something that
+	// does not parse again is the property's business, below)
+	stdU, stdErr := url.Parse(raw)
+	stdSame := stdErr == nil && stdU.String() == s
+	if back, ok := stdParseStrC14(s); stdSame && s != "" && (!ok || back != s) {
 		direct = fail("contract-URL-ID", "url.Parse(%q).String() = %q, %v", s, back, ok)
 	} else if back, ok := stdUnquoteC14(stdQuoteC14(s)); validUTF8 && (!ok || back != s) {
 		direct = fail("contract-JSON-RT", "json decoding of the encoding of %q gives %q, %v", s, back, ok)
@@ -824,13 +829,15 @@ func randURLC14(rng *rand.Rand) string {
 				}
 				sb.WriteString("@")
 			}
-			host := pick(rng, "a", "example.com", "[::1]", "[fe80::1%25eth0]", "1.2.3.4", "", "h.example", "xn--e1afmkfd.xn--p1ai", "EXAMPLE.org")
+			host := pick(rng, "a", "example.com", "[::1]", "[fe80::1%25eth0]", "1.2.3.4", "", "h.example", "xn--e1afmkfd.xn--p1ai", "EXAMPLE.org",
+				"[2001:db8::a]", "[::ffff:192.0.2.1]", "[2001:db8::1]", "[::]", "localhost", "0", "127.0.0.1")
 			if target == 2 {
 				host = pick(rng, host+special, special+host, special)
 			}
 			sb.WriteString(host)
 			if rng.IntN(3) == 0 {
-				sb.WriteString(":" + pick(rng, "80", "", "8443", "0", "65536", "x"))
+				// (the default ports of the common schemes among them)
+				sb.WriteString(":" + pick(rng, "80", "443", "80", "443", "", "8443", "0", "65536", "x", "21", "22", "080", "00443"))
 			}
 		}
 		nseg := rng.IntN(4)
